@@ -1,8 +1,412 @@
 /-
-  C20 — property theorems (only `theorem C20_*` statements and non-vacuity examples live here;
-  helper lemmas go to CedarGoProofs/Lemmas/).
+  C20 — Policy containers behave as an id-keyed map over any history of operations.
+  Model: `PS` = association list (policy_set.go keeps a Go map).  Spec: a function `PolicyID → Option Policy`.
 -/
-import CedarGo.Model.Fold
+import CedarGo.Model.PolicySet
+import CedarGoProofs.Properties.C02
 namespace CedarGo
+
+def PS.NoDup (s : PS) : Prop := (s.map (·.1)).Nodup
+
+/-- the abstraction: a policy set IS the lookup function -/
+def PS.abs (s : PS) : PolicyID → Option Policy := s.get
+
+theorem PS.get_none_iff (s : PS) (id : PolicyID) : s.get id = none ↔ id ∉ s.map (·.1) := by
+  induction s with
+  | nil => simp [PS.get]
+  | cons kp rest ih =>
+    obtain ⟨k, p⟩ := kp
+    simp only [PS.get, List.map_cons, List.mem_cons, not_or]
+    by_cases h : k = id
+    · simp [h]
+    · have : (k == id) = false := by simpa using h
+      simp [this, ih, Ne.symm h]
+
+theorem PS.get_append_new (s : PS) (id j : PolicyID) (p : Policy) (h : s.get id = none) :
+    PS.get (s ++ [(id, p)]) j = if j = id then some p else s.get j := by
+  induction s with
+  | nil => simp [PS.get]; by_cases hj : id = j <;> simp [hj, eq_comm]
+  | cons kp rest ih =>
+    obtain ⟨k, q⟩ := kp
+    simp only [PS.get] at h
+    by_cases hk : k = id
+    · simp [hk] at h
+    · have hk' : (k == id) = false := by simpa using hk
+      simp only [hk', Bool.false_eq_true, if_false] at h
+      simp only [List.cons_append, PS.get]
+      by_cases hkj : k = j
+      · subst hkj; simp [hk]
+      · have : (k == j) = false := by simpa using hkj
+        simp [this, ih h]
+
+theorem PS.get_replace (s : PS) (id j : PolicyID) (p : Policy) (h : (s.get id).isSome) :
+    PS.get (s.map (fun kp => if kp.1 == id then (id, p) else kp)) j = if j = id then some p else s.get j := by
+  induction s with
+  | nil => simp [PS.get] at h
+  | cons kp rest ih =>
+    obtain ⟨k, q⟩ := kp
+    simp only [List.map_cons]
+    by_cases hk : k = id
+    · subst hk
+      simp only [beq_self_eq_true, if_true, PS.get]
+      by_cases hj : k = j
+      · simp [hj]
+      · have : (k == j) = false := by simpa using hj
+        simp only [this, Bool.false_eq_true, if_false, Ne.symm hj]
+        -- the rest of the list: replacing there does not matter for j ≠ id
+        clear ih h
+        induction rest with
+        | nil => simp [PS.get]
+        | cons kp' rest' ih' =>
+          obtain ⟨k', q'⟩ := kp'
+          simp only [List.map_cons, PS.get]
+          simp only [beq_iff_eq] at ih' ⊢
+          by_cases hk' : k' = k
+          · subst hk'; simp [hj, ih']
+          · simp [hk', ih']
+    · have hk' : (k == id) = false := by simpa using hk
+      simp only [PS.get, hk', Bool.false_eq_true, if_false] at h ⊢
+      have ih1 := ih h
+      simp only [beq_iff_eq] at ih1 ⊢
+      by_cases hkj : k = j
+      · subst hkj; simp [hk]
+      · simp [hkj, ih1]
+
+theorem PS.map_replace_keys (s : PS) (id : PolicyID) (p : Policy) :
+    (s.map (fun kp => if kp.1 == id then (id, p) else kp)).map (·.1) = s.map (·.1) := by
+  induction s with
+  | nil => rfl
+  | cons kp rest ih =>
+    simp only [List.map_cons, ih]
+    by_cases h : kp.1 = id
+    · simp [h]
+    · have : (kp.1 == id) = false := by simpa using h
+      simp [this]
+
+/-- `Add` behaves as map update and reports whether the id was new; the invariant is kept. -/
+theorem C20_add_refines (s : PS) (id : PolicyID) (p : Policy) (hs : s.NoDup) :
+    (s.add id p).1.NoDup ∧ (∀ j, (s.add id p).1.abs j = if j = id then some p else s.abs j) ∧
+    (s.add id p).2 = (s.abs id).isNone := by
+  unfold PS.add PS.abs
+  cases h : s.get id with
+  | none =>
+    simp only [Option.isSome_none, Bool.false_eq_true, if_false, Option.isNone_none]
+    refine ⟨?_, fun j => PS.get_append_new s id j p h, trivial⟩
+    unfold PS.NoDup at *
+    simp only [List.map_append, List.map_cons, List.map_nil]
+    rw [List.nodup_append]
+    exact ⟨hs, by simp, by intro a ha b hb; simp at hb; subst hb; intro hab; subst hab; exact (PS.get_none_iff s a).mp h ha⟩
+  | some q =>
+    simp only [Option.isSome_some, if_true, Option.isNone_some]
+    refine ⟨?_, fun j => PS.get_replace s id j p (by simp [h]), trivial⟩
+    unfold PS.NoDup at *
+    rw [PS.map_replace_keys]; exact hs
+
+theorem PS.get_filter_ne (s : PS) (id j : PolicyID) :
+    PS.get (s.filter (fun kp => kp.1 != id)) j = if j = id then none else s.get j := by
+  induction s with
+  | nil => simp [PS.get]
+  | cons kp rest ih =>
+    obtain ⟨k, q⟩ := kp
+    simp only [List.filter_cons]
+    by_cases hk : k = id
+    · subst hk
+      simp only [bne_self_eq_false, Bool.false_eq_true, if_false, ih, PS.get]
+      by_cases hj : j = k
+      · simp [hj]
+      · have : (k == j) = false := by simpa using Ne.symm hj
+        simp [hj, this]
+    · have hk' : (k != id) = true := by simpa using hk
+      simp only [hk', if_true, PS.get, ih]
+      by_cases hkj : k = j
+      · subst hkj; simp [hk]
+      · have : (k == j) = false := by simpa using hkj
+        simp [this]
+
+/-- `Remove` behaves as map deletion and reports whether the id existed. -/
+theorem C20_remove_refines (s : PS) (id : PolicyID) (hs : s.NoDup) :
+    (s.remove id).1.NoDup ∧ (∀ j, (s.remove id).1.abs j = if j = id then none else s.abs j) ∧
+    (s.remove id).2 = (s.abs id).isSome := by
+  unfold PS.remove PS.abs
+  refine ⟨?_, fun j => PS.get_filter_ne s id j, rfl⟩
+  unfold PS.NoDup at *
+  exact (List.Nodup.sublist (List.Sublist.map _ List.filter_sublist) hs)
+
+/-! ### Marshal order -/
+
+theorem mem_insertId (x y : PolicyID) (l : List PolicyID) : y ∈ insertId x l ↔ y = x ∨ y ∈ l := by
+  induction l with
+  | nil => simp [insertId]
+  | cons z zs ih =>
+    simp only [insertId]; split
+    · simp
+    · simp only [List.mem_cons, ih]; constructor <;> (intro h; rcases h with h | h | h <;> simp [h])
+
+theorem mem_sortIds (y : PolicyID) (l : List PolicyID) : y ∈ sortIds l ↔ y ∈ l := by
+  induction l with
+  | nil => simp [sortIds]
+  | cons x xs ih => simp [sortIds, mem_insertId, ih]
+
+theorem sorted_insertId (x : PolicyID) (l : List PolicyID) (h : l.Pairwise (· ≤ ·)) : (insertId x l).Pairwise (· ≤ ·) := by
+  induction l with
+  | nil => simp [insertId]
+  | cons z zs ih =>
+    simp only [insertId]; split
+    · rename_i hxz
+      rw [List.pairwise_cons]
+      refine ⟨?_, h⟩
+      intro a ha
+      cases ha with
+      | head => exact hxz
+      | tail _ ha => exact String.le_trans hxz ((List.pairwise_cons.mp h).1 a ha)
+    · rename_i hxz
+      have hzx : z ≤ x := by
+        rcases String.le_total x z with h1 | h1
+        · exact absurd h1 hxz
+        · exact h1
+      rw [List.pairwise_cons]
+      refine ⟨?_, ih (List.pairwise_cons.mp h).2⟩
+      intro a ha
+      rcases (mem_insertId x a zs).mp ha with rfl | ha
+      · exact hzx
+      · exact (List.pairwise_cons.mp h).1 a ha
+
+theorem sorted_sortIds (l : List PolicyID) : (sortIds l).Pairwise (· ≤ ·) := by
+  induction l with
+  | nil => simp [sortIds]
+  | cons x xs ih => exact sorted_insertId x _ ih
+
+theorem nodup_insertId (x : PolicyID) (l : List PolicyID) (hx : x ∉ l) (h : l.Nodup) : (insertId x l).Nodup := by
+  induction l with
+  | nil => simp [insertId]
+  | cons z zs ih =>
+    simp only [insertId]; split
+    · exact List.nodup_cons.mpr ⟨hx, h⟩
+    · have hz := List.nodup_cons.mp h
+      simp only [List.mem_cons, not_or] at hx
+      refine List.nodup_cons.mpr ⟨?_, ih hx.2 hz.2⟩
+      rw [mem_insertId]; simp only [not_or]; exact ⟨Ne.symm hx.1, hz.1⟩
+
+theorem nodup_sortIds (l : List PolicyID) (h : l.Nodup) : (sortIds l).Nodup := by
+  induction l with
+  | nil => simp [sortIds]
+  | cons x xs ih =>
+    have hx := List.nodup_cons.mp h
+    exact nodup_insertId x _ (by rw [mem_sortIds]; exact hx.1) (ih hx.2)
+
+/-- two sorted duplicate-free lists with the same members are equal -/
+theorem sorted_nodup_ext (l1 l2 : List PolicyID) (s1 : l1.Pairwise (· ≤ ·)) (s2 : l2.Pairwise (· ≤ ·))
+    (n1 : l1.Nodup) (n2 : l2.Nodup) (h : ∀ x, x ∈ l1 ↔ x ∈ l2) : l1 = l2 := by
+  induction l1 generalizing l2 with
+  | nil =>
+    cases l2 with
+    | nil => rfl
+    | cons y ys => exact absurd ((h y).mpr (by simp)) (by simp)
+  | cons x xs ih =>
+    cases l2 with
+    | nil => exact absurd ((h x).mp (by simp)) (by simp)
+    | cons y ys =>
+      have hx1 := List.pairwise_cons.mp s1
+      have hy2 := List.pairwise_cons.mp s2
+      have nx := List.nodup_cons.mp n1
+      have ny := List.nodup_cons.mp n2
+      have hxy : x = y := by
+        have hx : x ∈ y :: ys := (h x).mp (by simp)
+        have hy : y ∈ x :: xs := (h y).mpr (by simp)
+        cases hx with
+        | head => rfl
+        | tail _ hx =>
+          cases hy with
+          | head => rfl
+          | tail _ hy => exact String.le_antisymm (hx1.1 y hy) (hy2.1 x hx)
+      subst hxy
+      congr 1
+      apply ih ys hx1.2 hy2.2 nx.2 ny.2
+      intro z
+      constructor
+      · intro hz
+        have := (h z).mp (by simp [hz])
+        cases this with
+        | head => exact absurd hz nx.1
+        | tail _ h' => exact h'
+      · intro hz
+        have := (h z).mpr (by simp [hz])
+        cases this with
+        | head => exact absurd hz ny.1
+        | tail _ h' => exact h'
+
+/-- Marshalling order: the ids in lexicographic order, each exactly once, exactly the current contents. -/
+theorem C20_marshal_sorted (s : PS) (hs : s.NoDup) :
+    s.ids.Pairwise (· ≤ ·) ∧ s.ids.Nodup ∧ ∀ id, id ∈ s.ids ↔ (s.abs id).isSome := by
+  refine ⟨sorted_sortIds _, nodup_sortIds _ hs, fun id => ?_⟩
+  unfold PS.ids PS.abs
+  rw [mem_sortIds]
+  have := PS.get_none_iff s id
+  cases h : s.get id with
+  | none => simp [this.mp h]
+  | some p =>
+    simp only [Option.isSome_some, iff_true]
+    exact Classical.byContradiction fun hn => by rw [this.mpr hn] at h; cases h
+
+/-- …so the marshal order depends only on the contents, not on the history that produced them. -/
+theorem C20_marshal_order_canonical (s1 s2 : PS) (h1 : s1.NoDup) (h2 : s2.NoDup) (h : s1.abs = s2.abs) :
+    s1.ids = s2.ids := by
+  obtain ⟨a1, b1, c1⟩ := C20_marshal_sorted s1 h1
+  obtain ⟨a2, b2, c2⟩ := C20_marshal_sorted s2 h2
+  exact sorted_nodup_ext _ _ a1 a2 b1 b2 (fun x => by rw [c1, c2, h])
+
+/-! ### Histories -/
+
+/-- the abstract map and its operations -/
+abbrev SpecMap := PolicyID → Option Policy
+
+/-- what the abstract map predicts for each operation: new map and a predicate on the output -/
+def specStep (m : SpecMap) : PSOp → SpecMap
+  | .add id p => fun j => if j = id then some p else m j
+  | .remove id => fun j => if j = id then none else m j
+  | .get _ => m
+  | .ids => m
+
+def specOut (m : SpecMap) : PSOp → PSOut → Prop
+  | .add id _, .bool b => b = (m id).isNone
+  | .remove id, .bool b => b = (m id).isSome
+  | .get id, .policy p => p = m id
+  | .ids, .idList l => l.Pairwise (· ≤ ·) ∧ l.Nodup ∧ ∀ id, id ∈ l ↔ (m id).isSome
+  | _, _ => False
+
+theorem C20_step_refines (s : PS) (op : PSOp) (hs : s.NoDup) :
+    (s.step op).1.NoDup ∧ (s.step op).1.abs = specStep s.abs op ∧ specOut s.abs op (s.step op).2 := by
+  cases op with
+  | add id p =>
+    obtain ⟨a, b, c⟩ := C20_add_refines s id p hs
+    exact ⟨a, funext b, c⟩
+  | remove id =>
+    obtain ⟨a, b, c⟩ := C20_remove_refines s id hs
+    exact ⟨a, funext b, c⟩
+  | get id => exact ⟨hs, rfl, rfl⟩
+  | ids => exact ⟨hs, rfl, C20_marshal_sorted s hs⟩
+
+/-- run of the abstract map over a history: every output satisfies the map's prediction -/
+def specRunOk (m : SpecMap) : List PSOp → List PSOut → Prop
+  | [], [] => True
+  | op :: ops, o :: os => specOut m op o ∧ specRunOk (specStep m op) ops os
+  | _, _ => False
+
+def specRunState (m : SpecMap) : List PSOp → SpecMap
+  | [] => m
+  | op :: ops => specRunState (specStep m op) ops
+
+/-- **Every history refines the id→policy map**: after any sequence of operations from any
+    duplicate-free state (in particular the empty set), every output is what the map predicts and
+    the final contents are the map's. -/
+theorem C20_history_refines (s : PS) (ops : List PSOp) (hs : s.NoDup) :
+    (s.run ops).1.NoDup ∧ (s.run ops).1.abs = specRunState s.abs ops ∧ specRunOk s.abs ops (s.run ops).2 := by
+  induction ops generalizing s with
+  | nil => exact ⟨hs, rfl, trivial⟩
+  | cons op ops ih =>
+    obtain ⟨a, b, c⟩ := C20_step_refines s op hs
+    obtain ⟨a', b', c'⟩ := ih (s.step op).1 a
+    simp only [PS.run, specRunState, specRunOk]
+    rw [← b]
+    exact ⟨a', b', c, c'⟩
+
+/-! ### Authorization depends only on the current contents -/
+
+theorem perm_of_same_abs (s1 s2 : PS) (h1 : s1.NoDup) (h2 : s2.NoDup) (h : s1.abs = s2.abs) : s1.Perm s2 := by
+  induction s1 generalizing s2 with
+  | nil =>
+    cases s2 with
+    | nil => exact .nil
+    | cons kp rest =>
+      have := congrFun h kp.1
+      simp [PS.abs, PS.get] at this
+  | cons kp rest ih =>
+    obtain ⟨k, p⟩ := kp
+    have hk : s2.get k = some p := by
+      have := congrFun h k; simp only [PS.abs, PS.get, beq_self_eq_true, if_true] at this; exact this.symm
+    -- s2 ~ (k,p) :: s2.remove k
+    have hn1 := List.nodup_cons.mp h1
+    obtain ⟨r2n, r2a, r2b⟩ := C20_remove_refines s2 k h2
+    have hrest : PS.abs rest = PS.abs (s2.remove k).1 := by
+      funext j
+      rw [r2a j]
+      by_cases hj : j = k
+      · subst hj
+        simp only [if_true]
+        exact (PS.get_none_iff rest j).mpr hn1.1
+      · simp only [hj, if_false]
+        have := congrFun h j
+        simp only [PS.abs, PS.get] at this
+        have e : (k == j) = false := by simpa using Ne.symm hj
+        simpa [e, PS.abs] using this
+    have hperm := ih (s2.remove k).1 hn1.2 r2n hrest
+    refine (List.Perm.cons _ hperm).trans ?_
+    -- (k,p) :: filter (≠ k) s2 ~ s2 when k occurs exactly once with value p
+    clear ih hperm hrest r2a r2n r2b h
+    unfold PS.remove
+    simp only
+    induction s2 with
+    | nil => simp [PS.get] at hk
+    | cons kq rest2 ih2 =>
+      obtain ⟨k', q⟩ := kq
+      have hn2 := List.nodup_cons.mp h2
+      simp only [List.filter_cons]
+      by_cases hkk : k' = k
+      · subst hkk
+        simp only [PS.get, beq_self_eq_true, if_true, Option.some.injEq] at hk
+        subst hk
+        simp only [bne_self_eq_false, Bool.false_eq_true, if_false]
+        have : rest2.filter (fun kp => kp.1 != k') = rest2 := by
+          apply List.filter_eq_self.mpr
+          intro a ha
+          simp only [bne_iff_ne, ne_eq]
+          intro hak
+          exact hn2.1 (by simp only [List.map_cons] at *; exact List.mem_map.mpr ⟨a, ha, hak⟩)
+        rw [this]
+      · have e : (k' == k) = false := by simpa using hkk
+        have e' : (k' != k) = true := by simpa using hkk
+        simp only [PS.get, e, Bool.false_eq_true, if_false] at hk
+        simp only [e', if_true]
+        exact (List.Perm.swap _ _ _).trans (List.Perm.cons _ (ih2 hn2.2 hk))
+
+/-- Authorization depends only on the current contents: two sets with the same contents (whatever
+    histories produced them) give the same decision and the same reasons and errors as sets. -/
+theorem C20_authorize_contents_only (s1 s2 : PS) (h1 : s1.NoDup) (h2 : s2.NoDup) (h : s1.abs = s2.abs) (env : Env) :
+    (authorize s1 env).allow = (authorize s2 env).allow ∧
+    (authorize s1 env).reasons.Perm (authorize s2 env).reasons ∧
+    (authorize s1 env).errors.Perm (authorize s2 env).errors :=
+  C02_order_independent compile s1 s2 env (perm_of_same_abs s1 s2 h1 h2 h)
+
+/-- A removed policy no longer influences authorization. -/
+theorem C20_removed_is_ineffective (s : PS) (id : PolicyID) (hs : s.NoDup) :
+    ∀ ip ∈ (s.remove id).1, ip.1 ≠ id := by
+  intro ip hip
+  simp only [PS.remove, List.mem_filter, bne_iff_ne, ne_eq] at hip
+  exact hip.2
+
+/-- Loading a document assigns policy0, policy1, … in document order with the file name everywhere. -/
+theorem C20_load_ids (name : String) (ps : List Policy) :
+    (PS.fromList name ps).map (·.1) = (List.range ps.length).map policyIdOf ∧
+    ∀ ip ∈ PS.fromList name ps, ip.2.position.filename = name := by
+  have key : ∀ (i : Nat) (l : List Policy),
+      (PS.fromList.go name i l).map (·.1) = (List.range' i l.length).map policyIdOf ∧
+      ∀ ip ∈ PS.fromList.go name i l, ip.2.position.filename = name := by
+    intro i l
+    induction l generalizing i with
+    | nil => simp [PS.fromList.go]
+    | cons p rest ih =>
+      obtain ⟨a, b⟩ := ih (i + 1)
+      simp only [PS.fromList.go, List.map_cons, List.length_cons, List.range'_succ, a]
+      refine ⟨trivial, ?_⟩
+      intro ip hip
+      cases hip with
+      | head => rfl
+      | tail _ h => exact b ip h
+  have := key 0 ps
+  simpa [PS.fromList, List.range_eq_range'] using this
+
+/-! ### Non-vacuity -/
+example : PS.NoDup [] := by simp [PS.NoDup]
+example : PS.ids (PS.add (PS.add [] "b" { effect := .permit }).1 "a" { effect := .forbid }).1 = ["a", "b"] := by decide +kernel
 
 end CedarGo
